@@ -65,9 +65,12 @@ Section Float.
   Definition f_one : bf := BinarySingleNaN.Bone.
   Definition f_inf (s : bool) : bf := B754_infinity s.
 
-  (* f32::max / f64::max (IEEE maxNum): a NaN operand is ignored; on equal operands (in particular +0 / -0)
-     either may be returned — the model returns the first; results of max/min are compared modulo the sign
-     of zero (C05: +0 and -0 compare equal). *)
+  (* The float min/max of the math layer.  Until /repo bf17999 the source said f32::max / f64::max (IEEE maxNum), whose
+     result on equal operands (+0 / -0) is unspecified - the model's "return the first" was a CHOICE, and the compiled
+     code really differed between instantiations (C12 finding, DESIGN 8.9).  The source now selects explicitly
+     (`if a.is_nan() || b > a { b } else { a }`); tools/translate_more.py renders that term and
+     Proofs/MathProofs.f_max_select / f_min_select prove it equal to these definitions, so "the first on equal
+     operands, a NaN operand is ignored" is what the source says. *)
   Definition f_max (a b : bf) : bf :=
     if f_is_nan a then b else if f_is_nan b then a else if f_lt a b then b else a.
   Definition f_min (a b : bf) : bf :=
